@@ -2,6 +2,7 @@ package props
 
 import (
 	"fmt"
+	"strings"
 
 	nodetypes "github.com/SaoNetwork/sao/x/node/types"
 	sdk "github.com/cosmos/cosmos-sdk/types"
@@ -26,6 +27,17 @@ import (
 //	unaligned    capacity withdrawals that are no multiple of the 1e6-byte pricing unit, with block rewards on
 func scnRenewRecipes(ctx *check.JobCtx) {
 	mode := ctx.Arg("mode", "shorter")
+	// "<mode>+rewards": the same recipe with block rewards actually flowing (claims meet debts and renewals)
+	// "<mode>+twin": a second model of the other owner is stored and completed in the same blocks with the same
+	// duration, so that its shards share every scheduled height with the recipe's model; it is never touched again
+	withRewards, withTwin := false, false
+	if parts := strings.Split(mode, "+"); len(parts) > 1 {
+		mode = parts[0]
+		for _, f := range parts[1:] {
+			withRewards = withRewards || f == "rewards"
+			withTwin = withTwin || f == "twin"
+		}
+	}
 	w := newLifeWorld(ctx, monitorsFor(ctx.Job.Prop)...)
 	w.BeginStates = true
 	p := DefaultLife()
@@ -34,6 +46,9 @@ func scnRenewRecipes(ctx *check.JobCtx) {
 	p.PoorSP = mode == "debt-release" || mode == "debt-expire"
 	if mode == "tiny-reduce" {
 		p.Providers = 2 // no spare provider: a silent replica can only be given up
+	}
+	if withRewards {
+		rewardRegime(&p)
 	}
 	if mode == "unaligned" {
 		rewardRegime(&p)
@@ -149,7 +164,7 @@ func scnRenewRecipes(ctx *check.JobCtx) {
 			w.CompleteAll(o3)
 		}
 		w.EndBlock()
-		w.Case("recipe:%s:replica=%d", mode, replica)
+		w.Case("recipe:%s:replica=%d,rewards=%v", mode, replica, withRewards)
 		for round := 0; round < 12 && !w.Halted(); round++ {
 			next := l.nextScheduled()
 			if next == 0 || int64(next) > w.C.Height+40000 {
@@ -171,7 +186,19 @@ func scnRenewRecipes(ctx *check.JobCtx) {
 		size = 1000
 	}
 	_, oid := w.Store(world.StoreReq{Owner: o.Id, Gateway: g, DataId: did, CommitId: did, Duration: d1, Replica: replica, Timeout: 500, Size: size})
+	var twinOid uint64
+	if withTwin {
+		o2 := l.Owners[0]
+		if o2 == o {
+			o2 = l.Owners[1]
+		}
+		td := w.NewDataId()
+		_, twinOid = w.Store(world.StoreReq{Owner: o2.Id, Gateway: g, DataId: td, CommitId: td, Duration: d1, Replica: replica, Timeout: 500, Size: size})
+	}
 	w.CompleteAll(oid)
+	if twinOid != 0 {
+		w.CompleteAll(twinOid)
+	}
 	w.EndBlock()
 	if mode == "multiversion-migrate" {
 		for v := 1; v <= 2; v++ {
@@ -201,6 +228,8 @@ func scnRenewRecipes(ctx *check.JobCtx) {
 	w.Advance(int64(10 + r.Intn(500)))
 	renew := func(d uint64) { w.Renew(o.Id, nil, g.Acct, "", d, 300, nil, did) }
 	switch mode {
+	case "terminate":
+		w.Terminate(o.Id, nil, g.Acct, "", did, nil)
 	case "shorter":
 		renew(3600 + uint64(r.Intn(200)))
 	case "longer":
@@ -280,7 +309,7 @@ func scnRenewRecipes(ctx *check.JobCtx) {
 		}
 	}
 	w.EndBlock()
-	w.Case("recipe:%s:replica=%d", mode, replica)
+	w.Case("recipe:%s:replica=%d,rewards=%v,twin=%v", mode, replica, withRewards, withTwin)
 	// cross every scheduled height, claiming now and then
 	for round := 0; round < 12 && !w.Halted(); round++ {
 		next := l.nextScheduled()
